@@ -8,8 +8,9 @@ results.json {"functions": {name: [ret, [argtype...]]}, "results": {id: {"r": [r
 
 Every case runs in a freshly forked child of this process (the library is loaded but no library function
 has been called before the fork, so the child starts from an empty database).  The child performs the setup
-ops, then the queries one by one, reporting each answer through a pipe before it starts the next; an alarm
-with the default disposition kills a query that hangs.  When the child dies at query k the answer of k is
+ops, then the queries one by one, reporting each answer through a pipe before it starts the next; a CPU-time
+limit of <timeout> seconds per query (SIGXCPU; insensitive to machine load) and a generous wall-clock alarm
+(SIGALRM), both with the default disposition, kill a query that hangs.  When the child dies at query k the answer of k is
 {"died": <signal or -exitcode>} and a new child repeats the setup and goes on with query k+1, so that every
 call is isolated without paying a process per call.
 
@@ -17,13 +18,14 @@ setup ops    ["db", path] interrogate_request_database      ["mod", {...}] inter
              ["touch"] force loading                         ["dir", d] interrogate_add_search_directory
 query ops    ["c", fname, int...]      call by index / position      -> value
              ["n", fname, latin1-name] call by name                  -> value
+             ["sweep", fname, [i...]] / ["sweep", fname, [[i, [n...]]...]]   many calls of one function -> list
              ["dump", maxidx, maxpos]  every function x 0..maxidx x 0..maxpos-1 -> {fname: value | [..] | [[..]..]}
              ["rewrite", id, lib, hash, mod] InterrogateDatabase::write with a fresh module def -> file text
              ["rewrite_def", k]        ... with the k-th module def of the setup (as read_new left it)
              ["def", k]                first/next index and names of the k-th module def
-strings travel as latin-1 text (one character per byte); NULL is null.
+strings travel as latin-1 text (one character per byte); a NULL answer is reported as "".
 """
-import ctypes, json, os, re, signal, sys, tempfile
+import ctypes, json, os, re, resource, signal, sys, tempfile
 
 C = ctypes
 
@@ -128,7 +130,7 @@ class Child:
         ret, at = self.funcs[name]
         v = self.fn(name)(*args)
         if ret == "s":
-            return dec(v)
+            return "" if v is None else dec(v)      # NULL (a record without module def) counts as empty
         if ret == "p":
             return v or 0
         if ret == "b":
@@ -141,6 +143,11 @@ class Child:
             return self.call(op[1], *op[2:])
         if k == "n":
             return self.call(op[1], enc(op[2]))
+        if k == "sweep":        # ["sweep", fname, [i...]] or ["sweep", fname, [[i, [n...]]...]]
+            name = op[1]
+            if self.funcs[name][1] == ["i", "i"]:
+                return [[self.call(name, i, n) for n in ns] for i, ns in op[2]]
+            return [self.call(name, i) for i in op[2]]
         if k == "dump":
             maxidx, maxpos = op[1], op[2]
             out = {}
@@ -176,6 +183,14 @@ class Child:
         raise SystemExit("idb_driver: unknown query op %r" % (op,))
 
 
+def limit(timeout):
+    """at most `timeout` more seconds of CPU, and 30 x that of wall clock, for the next operation"""
+    ru = resource.getrusage(resource.RUSAGE_SELF)
+    soft = int(ru.ru_utime + ru.ru_stime) + timeout + 1
+    resource.setrlimit(resource.RLIMIT_CPU, (soft, resource.RLIM_INFINITY))
+    signal.alarm(timeout * 30)
+
+
 def run_case(lib, writer, funcs, case, timeout):
     """-> list of results, one per query"""
     queries = case["queries"]
@@ -190,13 +205,15 @@ def run_case(lib, writer, funcs, case, timeout):
                 os.close(rfd)
                 os.dup2(errf.fileno(), 2)
                 signal.signal(signal.SIGALRM, signal.SIG_DFL)
-                signal.alarm(timeout)
+                signal.signal(signal.SIGXCPU, signal.SIG_DFL)
+                resource.setrlimit(resource.RLIMIT_AS, (4 << 30, 4 << 30))     # a runaway allocation fails, not the machine
+                limit(timeout)
                 ch = Child(lib, writer, funcs)
                 for op in case["setup"]:
                     ch.setup(op)
                 os.write(wfd, b"S\n")
                 for q in queries[start:]:
-                    signal.alarm(timeout)
+                    limit(timeout)
                     v = ch.query(q)
                     os.write(wfd, (json.dumps(v) + "\n").encode())
                 signal.alarm(0)
